@@ -62,6 +62,8 @@ struct Behaviour {
     realloc_by: u64,
     /// allocate only in calls whose ordinal j has j % modu == alloc_res (-1 = in every call)
     alloc_res: i64,
+    /// ticks charged by the input generator of mode 2 (outside the timed section)
+    gen_cost: u64,
     bcounters: Vec<(u8, u64)>,
     /// 0 bench, 1 bench_local, 2 with_inputs+bench_values, 3 no bench call, 4 bench_refs with input counter (items = id)
     mode: u8,
@@ -175,6 +177,7 @@ fn parse_beh(s: &str) -> Behaviour {
             "az" => b.alloc_sz = v.parse().unwrap(),
             "rg" => b.realloc_by = v.parse().unwrap(),
             "ar" => b.alloc_res = v.parse().unwrap(),
+            "gc" => b.gen_cost = v.parse().unwrap(),
             "mode" => b.mode = v.parse().unwrap(),
             "bc" => {
                 for p in v.split(',').filter(|x| !x.is_empty()) {
@@ -294,7 +297,15 @@ fn run_body(bid: usize, label: &str, bencher: Bencher) {
     match beh.mode {
         0 => bencher.bench(|| body_call(bid)),
         1 => bencher.bench_local(|| body_call(bid)),
-        2 => bencher.with_inputs(|| 7u64).bench_values(|_x| body_call(bid)),
+        2 => {
+            let gc = beh.gen_cost;
+            bencher
+                .with_inputs(move || {
+                    clock::charge(gc);
+                    7u64
+                })
+                .bench_values(|_x| body_call(bid))
+        }
         4 => bencher.with_inputs(|| 12u64).count_inputs_as::<ItemsCount>().bench_refs(|_x| body_call(bid)),
         _ => drop(bencher),
     }
